@@ -1645,6 +1645,10 @@ def tr_decl(repo):
                    "            continue\n        if isinstance(event, Event):\n            self._items.append(event)\n"
                    "        else:\n            self._items.append(Event(id=event, name=event))"):
             ea.append(".forEachSplitOnSpace [.skipIfPresent, .appendEventOrNew]")
+        elif t == ("for events in unprepared:\n    for event in events.split():\n        if event in self._items:\n"
+                   "            continue\n        if isinstance(event, Event):\n            self._items.append(event)\n"
+                   "        else:\n            self._items.append(Event(id=event, name=event))"):
+            ea.append(".forEachSplitOnWhitespace [.skipIfPresent, .appendEventOrNew]")
         elif t == "return self":
             ea.append(".retSelf")
         else:
@@ -2179,6 +2183,7 @@ SELFTEST_EDITS = [
     ("statemachine/state.py", "            new_transition = transition._copy_with_args(source=state, event=event)", "            new_transition = transition._copy_with_args(source=state)"),
     ("statemachine/state.py", "            origin.transitions.add_transitions(transition)\n", ""),
     ("statemachine/events.py", "                if event in self._items:\n                    continue\n", ""),
+    ("statemachine/events.py", "            for event in events.split():", "            for event in events.split(\" \"):"),
     ("statemachine/contrib/diagram.py", "                if transition.internal:\n                    continue\n", ""),
     ("statemachine/contrib/diagram.py", "            peripheries=2 if state.final else 1,", "            peripheries=2 if state.final and not state.transitions else 1,"),
     ("statemachine/contrib/diagram.py", "        if state == self._current_state():", "        if state.value == getattr(self.machine, \"current_state_value\", None):"),
